@@ -74,6 +74,11 @@ def generation_writers(ctx, R, rule):
     for cd, cname in sorted(CLASSES.items()):
         cls = prog.classes.get(cd)
         lf = prog.find_method(cls, '_from_db_object') if cls else None
+        if not lf and cls is not None:
+            # the loader may have become a module-level function
+            # (presented under its recorded name by psa/anchors.py)
+            lf = prog.by_qbase.get('%s:%s._from_db_object' % (
+                cls.module.name, cls.name))
         if not lf:
             R.ob(rule, '%s._from_db_object' % cname, False,
                  'loader exists', 'not found')
